@@ -14,7 +14,7 @@ func init() {
 }
 
 // see specs/Split.tla: Chars, SegKinds, IFSNames
-var splitChars = []string{"x", "SP", "TAB", ",", ":", "U1"}
+var splitChars = []string{"x", "SP", "TAB", ",", ":", "U1", "CR"}
 
 var splitIFS = []struct {
 	name  string
@@ -53,6 +53,8 @@ func toSymbols(s string) []string {
 			out = append(out, "TAB")
 		case '\n':
 			out = append(out, "NL")
+		case '\r':
+			out = append(out, "CR")
 		case 'é':
 			out = append(out, "U1")
 		case 'あ':
@@ -106,6 +108,10 @@ func splitWord(segs []int, variant string, env *interp.ExecEnv) ast.Word {
 }
 
 func splitMode(in *bufio.Scanner, out *json.Encoder) error {
+	// one environment for the whole run: IFS is set, changed and unset again and again, so that a
+	// setting that survives its replacement or removal shows up
+	env := interp.NewExecEnv("sh")
+	env.Opts |= interp.NoGlob
 	for in.Scan() {
 		var c splitCase
 		if err := json.Unmarshal(in.Bytes(), &c); err != nil {
@@ -115,8 +121,6 @@ func splitMode(in *bufio.Scanner, out *json.Encoder) error {
 		for _, variant := range []string{"lit", "var"} {
 			per := [][][]string{}
 			for _, ifs := range splitIFS {
-				env := interp.NewExecEnv("sh")
-				env.Opts |= interp.NoGlob
 				if ifs.unset {
 					env.Unset("IFS")
 				} else {
